@@ -1301,7 +1301,7 @@ def decompile_script(script: bytes, indent: int = 0) -> list[str]:
             case 'OP_PUSH2':
                 # ops that have tape argument of form [0-65535] [val]
                 # human-readable syntax of simply OP_PUSH2 [val]
-                size = bytes_to_int(tape.read(2))
+                size = int.from_bytes(tape.read(2), 'big')
                 val = tape.read(size)
                 add_line(f'{op_name} d{size} x{val.hex()}')
             case 'OP_DIV_FLOAT' | 'OP_MOD_FLOAT':
